@@ -753,6 +753,30 @@ def atom_of_edge(prog, f, sw, arm, slicer, depth=0):
 def _bool_atom(prog, f, l, truth, slicer, sw, depth):
     """atom for 'bool local l has value truth'"""
     d = single_def(f, l)
+    if d is None and depth <= 6:
+        # a materialised test (`let flag = matches!(x, V);` ... `if flag`): the local is assigned `true` in one successor of a switch and
+        # `false` in the other, and nowhere else - "flag has value t" is the edge of that switch into the block assigning t
+        defs = f.local_defs().get(l) or []
+        if len(defs) == 2 and all(si_ != "T" for (_, si_) in defs):
+            vals = {}
+            for (b_, s_) in defs:
+                st_ = f.blocks[b_]["s"][s_]
+                c_ = const_int(st_["v"]["a"][0]) if st_["v"]["r"] == "use" and not st_["d"].get("p") and st_["v"].get("a") else None
+                if c_ is not None:
+                    vals[bool(c_)] = b_
+            if len(vals) == 2 and vals[True] != vals[False]:
+                pred = f.pred()
+                pt, pf = list(pred[vals[True]]), list(pred[vals[False]])
+                if len(pt) == 1 and pt == pf and f.blocks[pt[0]]["t"]["k"] == "switch":
+                    s0 = pt[0]
+                    t0 = f.blocks[s0]["t"]
+                    want = vals[truth]
+                    arms0 = [(int(a_), b2) for a_, b2 in t0["arms"]] + [("else", t0["else"])]
+                    hit = [a_ for a_, b2 in arms0 if b2 == want]
+                    if len(hit) == 1 and s0 != sw:
+                        at = atom_of_edge(prog, f, s0, hit[0], slicer, depth + 1)
+                        at.block = sw
+                        return at
     if d is None or depth > 6:
         pv = slicer.local(f, l)
         return Atom("bool", truth=truth, lhs=pv, block=sw)
